@@ -5,6 +5,7 @@ package vault
 // C18: a response-wrapping token reveals its payload exactly once.
 
 import (
+	"context"
 	"encoding/json"
 	"fmt"
 	"strings"
@@ -12,6 +13,8 @@ import (
 	"testing"
 	"time"
 
+	"github.com/go-jose/go-jose/v4"
+	"github.com/go-jose/go-jose/v4/jwt"
 	kit "github.com/openbao/openbao/sdk/v2/helper/verifkit"
 	"github.com/openbao/openbao/sdk/v2/logical"
 	"github.com/openbao/openbao/v2/internal/helper/namespace"
@@ -65,7 +68,9 @@ func c18Contains(resp *logical.Response, canary string) bool {
 }
 
 type c18Wrap struct {
-	Token    string
+	Token    string // what the requester was handed: the token id, or a JWT that carries it
+	ID       string // the token id (= Token for the default format, the JWT's id claim else)
+	Format   string // "" (default, uuid) or "jwt"
 	Accessor string
 	Canary   string
 	Path     string // creation path expected from lookup
@@ -74,28 +79,65 @@ type c18Wrap struct {
 	TTL      time.Duration
 }
 
+// c18Format is the wrap format the next c18MakeWrapped asks for ("" = default).
+var c18Format string
+
+// c18DoWrap is vCore.Do for a request that asks for response wrapping with a format.
+func c18DoWrap(v *vCore, r vReq, format string) (*logical.Response, error) {
+	ctx := namespace.RootContext(context.Background())
+	if r.NS != "" {
+		ctx = namespace.ContextWithNamespaceHeader(context.Background(), r.NS)
+	}
+	req := &logical.Request{Operation: r.Op, Path: r.Path, ClientToken: r.Token, Data: r.Data, Connection: &logical.Connection{RemoteAddr: "127.0.0.1"}}
+	if r.WrapTTL > 0 || format != "" {
+		req.WrapInfo = &logical.RequestWrapInfo{TTL: r.WrapTTL, Format: format}
+	}
+	if r.Tag != "" && v.Probe != nil {
+		v.Probe.Tag(r.Tag)
+		defer v.Probe.Untag()
+	}
+	return v.Core.HandleRequest(ctx, req)
+}
+
+// c18TokenID returns the token id a wrapping token string stands for: itself, or the id claim
+// of a JWT-format token (read without the key, as any holder of the JWT can).
+func c18TokenID(token string) string {
+	if !IsJWT(token) {
+		return token
+	}
+	parsed, err := jwt.ParseSigned(token, []jose.SignatureAlgorithm{jose.ES512})
+	if err != nil {
+		return token
+	}
+	var claims jwt.Claims
+	if err := parsed.UnsafeClaimsWithoutVerification(&claims); err != nil || claims.ID == "" {
+		return token
+	}
+	return claims.ID
+}
+
 // c18MakeWrapped issues a wrapped response of the given kind and checks that the creating
 // request did not see the payload.
 func c18MakeWrapped(t *testing.T, v *vCore, r *kit.Result, rng *kit.Rand, kind string, user string, ttl time.Duration, caseID string) *c18Wrap {
 	canary := rng.Canary()
 	var resp *logical.Response
 	var err error
-	w := &c18Wrap{Canary: canary, Kind: kind, TTL: ttl}
+	w := &c18Wrap{Canary: canary, Kind: kind, TTL: ttl, Format: c18Format}
 	switch kind {
 	case "kv":
 		c18Seq++
 		name := fmt.Sprintf("item-%d", c18Seq)
 		v.MustDo(vReq{Op: logical.UpdateOperation, Path: "rec/data/" + name, Token: v.Root, Data: map[string]any{"value": canary}})
 		w.Path = "rec/data/" + name
-		resp, err = v.Do(vReq{Op: logical.ReadOperation, Path: w.Path, Token: user, WrapTTL: ttl})
+		resp, err = c18DoWrap(v, vReq{Op: logical.ReadOperation, Path: w.Path, Token: user, WrapTTL: ttl}, c18Format)
 	case "login":
 		w.Path = "auth/recauth/login/u"
-		resp, err = v.Do(vReq{Op: logical.UpdateOperation, Path: w.Path, Data: map[string]any{"policies": []string{"default"}, "ttl": "1h", "canary": canary, "display_name": canary}, WrapTTL: ttl})
+		resp, err = c18DoWrap(v, vReq{Op: logical.UpdateOperation, Path: w.Path, Data: map[string]any{"policies": []string{"default"}, "ttl": "1h", "canary": canary, "display_name": canary}, WrapTTL: ttl}, c18Format)
 	case "list":
 		c18Seq++
 		v.MustDo(vReq{Op: logical.UpdateOperation, Path: fmt.Sprintf("rec/data/dir-%d/k-%s", c18Seq, canary), Token: v.Root, Data: map[string]any{"value": "x"}})
 		w.Path = fmt.Sprintf("rec/data/dir-%d/", c18Seq)
-		resp, err = v.Do(vReq{Op: logical.ListOperation, Path: w.Path, Token: user, WrapTTL: ttl})
+		resp, err = c18DoWrap(v, vReq{Op: logical.ListOperation, Path: w.Path, Token: user, WrapTTL: ttl}, c18Format)
 	}
 	w.Created = time.Now()
 	if !vOK(resp, err) || resp == nil || resp.WrapInfo == nil || resp.WrapInfo.Token == "" {
@@ -108,7 +150,11 @@ func c18MakeWrapped(t *testing.T, v *vCore, r *kit.Result, rng *kit.Rand, kind s
 		r.Violate("C18-creator-saw-payload", caseID, "wrapped login returned the inner auth to the requester", nil)
 	}
 	w.Token = resp.WrapInfo.Token
+	w.ID = c18TokenID(w.Token)
 	w.Accessor = resp.WrapInfo.Accessor
+	if (c18Format == "jwt") != IsJWT(w.Token) {
+		r.Violate("C18-wrap-format-not-as-requested", caseID, fmt.Sprintf("wrap format %q was requested, the token handed out is JWT: %v", c18Format, IsJWT(w.Token)), map[string]any{"kind": kind})
+	}
 	return w
 }
 
@@ -128,11 +174,11 @@ func c18Do(v *vCore, kind string, w *c18Wrap, user string) (*logical.Response, e
 	case "lookup":
 		return v.Do(vReq{Op: logical.UpdateOperation, Path: "sys/wrapping/lookup", Token: user, Data: map[string]any{"token": w.Token}})
 	case "revoke":
-		return v.Do(vReq{Op: logical.UpdateOperation, Path: "auth/token/revoke", Token: v.Root, Data: map[string]any{"token": w.Token}})
+		return v.Do(vReq{Op: logical.UpdateOperation, Path: "auth/token/revoke", Token: v.Root, Data: map[string]any{"token": w.ID}})
 	case "cubbyhole-read":
-		return v.Do(vReq{Op: logical.ReadOperation, Path: "cubbyhole/response", Token: w.Token})
+		return v.Do(vReq{Op: logical.ReadOperation, Path: "cubbyhole/response", Token: w.ID}) // a JWT is only understood by sys/wrapping/*: its holder presents the id it carries
 	case "misuse":
-		return v.Do(vReq{Op: logical.ReadOperation, Path: "rec/data/other", Token: w.Token})
+		return v.Do(vReq{Op: logical.ReadOperation, Path: "rec/data/other", Token: w.ID})
 	}
 	panic(kind)
 }
@@ -183,7 +229,7 @@ func c18LeaseStateRaw(v *vCore, leaseID string) string {
 func c18Case(t *testing.T, v *vCore, r *kit.Result, rng *kit.Rand, caseID, wkind string, kinds []string, pol kit.Policy, user string) (kit.Schedule, bool) {
 	w := c18MakeWrapped(t, v, r, rng, wkind, user, 5*time.Minute, caseID)
 	ctx := namespace.RootContext(t.Context())
-	te, err := v.Core.tokenStore.Lookup(ctx, w.Token)
+	te, err := v.Core.tokenStore.Lookup(ctx, w.ID)
 	if err != nil || te == nil {
 		t.Fatalf("verif: fresh wrapping token not found: %v", err)
 	}
@@ -325,8 +371,11 @@ func c18Case(t *testing.T, v *vCore, r *kit.Result, rng *kit.Rand, caseID, wkind
 	if unwrapAttempts > 0 || anyRevoke || len(newTokens) > 0 {
 		// A first-party unwrap hands the token's revocation to the expiration workers
 		// (deferred LazyRevoke), so teardown is asynchronous: wait (bounded, generous) until the
-		// token's lease record is gone - the last thing a completed revocation deletes - before
-		// scanning for residue. Not reached = inconclusive, never a violation.
+		// token's lease record is gone before scanning for residue. The lease record is not the
+		// last thing to go: the token store's revocation deletes the cubbyhole, then (through
+		// RevokeByToken) the lease, then the accessor index and last the token record; the
+		// remaining two deletes are covered by the WaitQuiet below. Not reached = inconclusive,
+		// never a violation.
 		leaseGone := false
 		for i := 0; i < 3000 && !leaseGone; i++ {
 			leaseGone = true
@@ -435,7 +484,15 @@ func TestVerif_C18_Sequential(t *testing.T) {
 			for i := range kinds {
 				kinds[i] = kit.Pick(rng, c18Kinds)
 			}
-			if _, cont := c18Case(t, v, r, rng, caseID, kit.Pick(rng, []string{"kv", "login", "list"}), kinds, nil, user); !cont {
+			// the wrap format comes from its own stream, so the histories are those of earlier rounds
+			c18Format = ""
+			if kit.NewRand(seed, uint64(c)*2+b2u18(tx)+31_000_000).Chance(1, 3) {
+				c18Format = "jwt"
+				r.Count("cases_with_jwt_format", 1)
+			}
+			_, cont := c18Case(t, v, r, rng, caseID, kit.Pick(rng, []string{"kv", "login", "list"}), kinds, nil, user)
+			c18Format = ""
+			if !cont {
 				return
 			}
 		}
@@ -443,14 +500,19 @@ func TestVerif_C18_Sequential(t *testing.T) {
 		if kit.WantCase(fmt.Sprintf("ttl:%v", tx)) {
 			rng := kit.NewRand(seed, 900+b2u18(tx))
 			var ws []*c18Wrap
-			for i := 0; i < 3; i++ {
-				ws = append(ws, c18MakeWrapped(t, v, r, rng, []string{"kv", "login", "list"}[i], user, time.Second, "ttl"))
+			var ids []*c18Ident
+			one := &c18Tree{v: v, NSs: []*c18NS{{Path: "", NS: namespace.RootNamespace, User: user}}}
+			for i := 0; i < 6; i++ {
+				c18Format = []string{"", "jwt"}[i/3]
+				ws = append(ws, c18MakeWrapped(t, v, r, rng, []string{"kv", "login", "list"}[i%3], user, time.Second, "ttl"))
+				ids = append(ids, one.ident(t, ws[i].ID))
 			}
+			c18Format = ""
 			deadline := time.Now().Add(20 * time.Second)
-			for time.Now().Before(ws[2].Created.Add(2500*time.Millisecond)) && time.Now().Before(deadline) {
+			for time.Now().Before(ws[5].Created.Add(2500*time.Millisecond)) && time.Now().Before(deadline) {
 				time.Sleep(100 * time.Millisecond)
 			}
-			if time.Now().After(ws[2].Created.Add(2 * time.Second)) {
+			if time.Now().After(ws[5].Created.Add(2 * time.Second)) {
 				for _, w := range ws {
 					resp, err := v.Do(vReq{Op: logical.UpdateOperation, Path: "sys/wrapping/unwrap", Token: w.Token})
 					r.Eval(1)
@@ -458,6 +520,9 @@ func TestVerif_C18_Sequential(t *testing.T) {
 					if vOK(resp, err) && c18Contains(resp, w.Canary) {
 						r.Violate("C18-unwrap-after-ttl", fmt.Sprintf("ttl:%v", tx), fmt.Sprintf("wrapped %s payload obtained %.1fs after creation with wrap TTL 1s", w.Kind, time.Since(w.Created).Seconds()), nil)
 					}
+				}
+				for i, w := range ws {
+					one.judgeGone(r, fmt.Sprintf("ttl:%v", tx), ids[i], "C18-residue-after-ttl", fmt.Sprintf("the wrap TTL (1s) of a %s token (format %q) elapsed %.1fs ago", w.Kind, w.Format, time.Since(w.Created).Seconds()), map[string]any{"kind": w.Kind, "format": w.Format})
 				}
 			} else {
 				r.Inconc("clock did not pass the wrap TTL within the bound")
@@ -532,15 +597,25 @@ func TestVerif_C18_Schedules(t *testing.T) {
 			ex := &kit.Explorer{MaxPreempt: 2, MaxRuns: kit.N(45, 200)}
 			idx := 0
 			stop := false
+			prefix := fmt.Sprintf("sch:%v:%d:%d:ex:", tx, shard, c)
 			ex.Explore(func(pol kit.Policy) (kit.Schedule, bool) {
 				idx++
-				caseID := fmt.Sprintf("sch:%v:%d:%d:ex:%d", tx, shard, c, idx)
+				caseID := fmt.Sprintf("%s%d", prefix, idx)
+				res := r
 				if !kit.WantCase(caseID) {
-					return kit.Schedule{Diverged: true}, true
+					if !strings.HasPrefix(kit.OnlyCase(), prefix) {
+						return kit.Schedule{Diverged: true}, true
+					}
+					// replay of a later interleaving of this scenario: the enumeration has to be
+					// walked up to it; the earlier interleavings are run without being judged
+					res = kit.NewResult(t, "c18-schedules-replay-walk", seed, "")
 				}
-				s, cont := c18Case(t, v, r, kit.NewRand(seed, uint64(idx)+5_000_000), caseID, wkind, kinds, pol, user)
+				s, cont := c18Case(t, v, res, kit.NewRand(seed, uint64(idx)+5_000_000), caseID, wkind, kinds, pol, user)
 				if !cont {
 					stop = true
+				}
+				if res == r && kit.OnlyCase() != "" {
+					return s, false // the wanted interleaving has been judged
 				}
 				return s, cont
 			})
